@@ -31,8 +31,29 @@ Qed.
     the estimator has learned *)
 Definition fzero64 : FL.F := B754_zero false.
 
-Lemma fl_one_minus_zero : forall p, sub (FL.arp p) (fone (FL.arp p)) fzero64 = fone (FL.arp p).
+(* no [vm_compute] to a normal form that contains a float: reading back the proof inside
+   [B754_finite] is what is slow, not the computation *)
+Lemma fsub_zero_r : forall x : FL.F, is_finite_strict x = true ->
+  @Bminus 53 1024 FL.Hp FL.Hm mode_NE x fzero64 = x.
+Proof. intros [s|s| |s m e H] Hx; try discriminate Hx. reflexivity. Qed.
+
+Lemma fone_strict : forall p, is_finite_strict (fone (FL.arp p)) = true.
 Proof. intros p. vm_compute. reflexivity. Qed.
+
+Lemma zero_rate_shape : forall o s d : FL.F,
+  is_finite_strict o = true -> is_finite s = true -> is_finite d = true ->
+  FL.fis_zero
+    (@Bdiv 53 1024 FL.Hp FL.Hm mode_NE
+       (@Bplus 53 1024 FL.Hp FL.Hm mode_NE
+          (@Bmult 53 1024 FL.Hp FL.Hm mode_NE d fzero64)
+          (@Bmult 53 1024 FL.Hp FL.Hm mode_NE
+             (@Bdiv 53 1024 FL.Hp FL.Hm mode_NE (@Bmult 53 1024 FL.Hp FL.Hm mode_NE s fzero64) o) o))
+       o) = true.
+Proof.
+  intros [so|so| |so mo eo Ho] [ss|ss| |ss ms es Hs] [sd|sd| |sd md ed Hd] Fo Fs Fd;
+    try discriminate Fo; try discriminate Fs; try discriminate Fd;
+    destruct so, ss, sd; reflexivity.
+Qed.
 
 Theorem fl_rate_zero_when_weight_zero : forall p (e : est FL.F) now,
   is_finite (sm e) = true -> is_finite (dsm e) = true ->
@@ -40,10 +61,11 @@ Theorem fl_rate_zero_when_weight_zero : forall p (e : est FL.F) now,
   est_weight (FL.arp p) (dur_secs (FL.arp p) (since now (start_time e))) = fzero64 ->
   is_zero (FL.arp p) (est_sps (FL.arp p) e now) = true.
 Proof.
-  intros p e now Hs Hd H1 H2. unfold est_sps. cbv zeta. change (T (FL.arp p)) with FL.F in *. rewrite H1, H2, fl_one_minus_zero.
-  destruct (sm e) as [s1| | |s1 m1 e1 B1]; try discriminate Hs;
-    destruct (dsm e) as [s2| | |s2 m2 e2 B2]; try discriminate Hd;
-    destruct s1, s2; vm_compute; reflexivity.
+  intros p e now Hs Hd H1 H2. unfold est_sps. cbv zeta. change (T (FL.arp p)) with FL.F in *.
+  rewrite H1, H2.
+  change (sub (FL.arp p)) with (@Bminus 53 1024 FL.Hp FL.Hm mode_NE).
+  rewrite (fsub_zero_r _ (fone_strict p)).
+  exact (zero_rate_shape (fone (FL.arp p)) (sm e) (dsm e) (fone_strict p) Hs Hd).
 Qed.
 
 Theorem fl_eta_zero_when_weight_zero : forall p (b : bar FL.F) now,
@@ -284,13 +306,14 @@ Proof.
     { assert (HNpos : 0 < B2R (of_int (FL.arp p) NS_PER_SEC)).
       { apply Rlt_le_trans with (2 := HN29). apply bpow_gt_0. }
       apply Rle_trans with (1 / B2R (of_int (FL.arp p) NS_PER_SEC)).
-      - rewrite bpow_opp. unfold Rdiv. rewrite Rmult_1_l.
+      - change (-30)%Z with (- (30))%Z. rewrite bpow_opp. unfold Rdiv. rewrite Rmult_1_l.
         apply Rinv_le; [exact HNpos | exact HN30].
       - unfold Rdiv. apply Rmult_le_compat_r; [left; now apply Rinv_0_lt_compat | exact Hmr]. }
     rewrite Ef. assert (H2 := RN_ge_bpow _ (-30) ltac:(lia) Hfr). lra.
   - assert (Hq1' : 1 <= B2R (of_int (FL.arp p) (d / NS_PER_SEC))).
     { rewrite Eq. change 1 with (bpow radix2 0). apply RN_ge_bpow; [lia|].
-      change (bpow radix2 0) with (IZR 1). apply IZR_le. lia. }
+      change (bpow radix2 0) with (IZR 1). apply IZR_le.
+      assert (0 < d / NS_PER_SEC)%N by (apply N.neq_0_lt_0; exact NZ). lia. }
     assert (bpow radix2 (-30) <= 1) by (change 1 with (bpow radix2 0); apply bpow_le; lia).
     lra.
 Qed.
@@ -316,19 +339,29 @@ Proof.
   specialize (Hlow H1).
   assert (Hpos : 0 < B2R (of_int (FL.arp p) EST_WEIGHTING_SECONDS)).
   { apply Rlt_le_trans with (2 := H3). apply bpow_gt_0. }
-  change (-34)%Z with (-30 + - 4)%Z. rewrite bpow_plus, bpow_opp. unfold Rdiv.
+  change (-34)%Z with (-30 + - (4))%Z. rewrite bpow_plus, bpow_opp. unfold Rdiv.
   apply Rmult_le_compat; try assumption.
   - apply bpow_ge_0.
   - left. apply Rinv_0_lt_compat, bpow_gt_0.
   - apply Rinv_le; assumption.
 Qed.
 
-(** what the supplied [powf] has to satisfy: for a finite non-negative exponent the value is a
-    weight (finite, in [0,1]), and it is below 1 for exponents >= 2^-34 (0.1^(2^-34) = 1 - 1.3e-10
-    is far from rounding to 1; ages are >= 1 ns, i.e. exponents >= 6.6e-11 > 2^-34) *)
-Definition pow_ok (p : F -> F) : Prop :=
-  forall x, is_finite x = true -> 0 <= B2R x ->
-    bnd (p x) 0 /\ (bpow radix2 (-34) <= B2R x -> B2R (p x) < 1).
+(** [pow_ok p] (model/Estimator.v): what the supplied [powf] has to satisfy *)
+(** non-vacuity: the step function "1 at exponent 0, 1/2 above" satisfies it (so does every
+    monotone, faithfully rounded powf) *)
+Definition HALF_BITS : N := 4602678819172646912.   (* 0.5 *)
+Definition pow_step (x : F) : F := if FL.fis_zero x then fone64 else FL.of_bits HALF_BITS.
+Lemma pow_ok_step : pow_ok pow_step.
+Proof.
+  intros x Fx Hx. unfold pow_step.
+  assert (Hh : is_finite (FL.of_bits HALF_BITS) = true /\ B2R (FL.of_bits HALF_BITS) = / 2).
+  { split; [reflexivity|]. vm_compute. lra. }
+  destruct Hh as [Fh Eh]. destruct fone64_correct as [F1 E1].
+  destruct x as [s|s| |s m e H]; cbn [FL.fis_zero]; try discriminate Fx.
+  - split; [split; [exact F1 | rewrite E1; lra]|].
+    intros Hb. cbn [B2R] in Hb. assert (0 < bpow radix2 (-34)) by apply bpow_gt_0. lra.
+  - split; [split; [exact Fh | rewrite Eh; lra] | intros _; rewrite Eh; lra].
+Qed.
 
 Lemma weight_bnd : forall p d, pow_ok p -> (d < U64)%N ->
   bnd (est_weight (FL.arp p) (dur_secs (FL.arp p) d)) 0 /\
@@ -385,4 +418,249 @@ Proof.
   destruct (fadd_bnd _ _ 150 Fdw Ft3 Hdw0 Ht30 Hsum ltac:(lia)) as [Bdsps _].
   destruct (fdiv_bnd _ _ 150 (-53) Bdsps Ft Htlow ltac:(lia)) as [Bres _].
   exact Bres.
+Qed.
+
+(** ** RECORD keeps the two averages finite, non-negative and bounded
+    An exponentially weighted update s*w + n*(1-w) of s <= 2B with n <= B stays <= 2B in binary64:
+    for w <= 1/2 both products are <= B; for w > 1/2 the difference 1-w is exact (Sterbenz) and
+    the products are bounded by the exactly representable 2B*w and B*(1-w). *)
+Lemma fmt_scale : forall x k, (0 <= k)%Z -> fmt x -> fmt (x * bpow radix2 k).
+Proof.
+  intros x k Hk Fx.
+  destruct (FLT_format_generic radix2 (-1074) 53 x Fx) as [f Hx Hm He].
+  apply generic_format_FLT. apply FLT_spec with (f := Float radix2 (Fnum f) (Fexp f + k)).
+  - rewrite Hx. unfold F2R. cbn [Fnum Fexp]. rewrite bpow_plus. ring.
+  - exact Hm.
+  - cbn [Fexp]. lia.
+Qed.
+
+Lemma ewma_bnd : forall k s n w, (0 <= k <= 1000)%Z -> bnd s (k + 1) -> bnd n k -> bnd w 0 ->
+  bnd (fadd (fmul s w) (fmul n (fsub fone64 w))) (k + 1).
+Proof.
+  intros k s n w Hk Hs Hn Hw.
+  destruct (fsub_one_bnd w Hw) as [Bv Ev].
+  destruct (fmul_bnd s w (k + 1) 0 Hs Hw ltac:(lia)) as [Ba Ea].
+  destruct (fmul_bnd n (fsub fone64 w) k 0 Hn Bv ltac:(lia)) as [Bb Eb].
+  destruct Hs as (Fs & Hs0 & Hs1). destruct Hn as (Fn & Hn0 & Hn1).
+  destruct Hw as (Fw & Hw0 & Hw1). change (bpow radix2 0) with 1 in Hw1.
+  destruct Ba as (Fa & Ha0 & _). destruct Bb as (Fb & Hb0 & Hb1).
+  replace (k + 0)%Z with k in Hb1 by lia.
+  assert (Hsum : B2R (fmul s w) + B2R (fmul n (fsub fone64 w)) <= bpow radix2 (k + 1)).
+  { rewrite bpow_double.
+    destruct (Rle_lt_dec (B2R w) (/ 2)) as [Hle | Hgt].
+    - (* w <= 1/2 *)
+      assert (Ha1 : B2R (fmul s w) <= bpow radix2 k).
+      { rewrite Ea. apply RN_le_bpow; [lia|].
+        apply Rle_trans with (bpow radix2 (k + 1) * / 2).
+        - apply Rmult_le_compat; assumption.
+        - rewrite bpow_double. lra. }
+      lra.
+    - (* w > 1/2: 1 - w is exact *)
+      assert (Fv : fmt (1 - B2R w)).
+      { apply sterbenz; auto with typeclass_instances.
+        - change 1 with (bpow radix2 0). apply fmt_bpow. lia.
+        - apply fmt_B2R.
+        - lra. }
+      assert (Ev' : B2R (fsub fone64 w) = 1 - B2R w).
+      { rewrite Ev. apply round_generic; auto with typeclass_instances. }
+      assert (Ha1 : B2R (fmul s w) <= B2R w * bpow radix2 (k + 1)).
+      { rewrite Ea. apply RN_le_fmt; [apply fmt_scale; [lia | apply fmt_B2R]|].
+        rewrite (Rmult_comm (B2R s)). apply Rmult_le_compat_l; assumption. }
+      assert (Hb1' : B2R (fmul n (fsub fone64 w)) <= (1 - B2R w) * bpow radix2 k).
+      { rewrite Eb, Ev'. apply RN_le_fmt; [apply fmt_scale; [lia | exact Fv]|].
+        rewrite (Rmult_comm (B2R n)). apply Rmult_le_compat_l; [lra | assumption]. }
+      rewrite bpow_double in Ha1.
+      assert (Hk0 : 0 < bpow radix2 k) by apply bpow_gt_0.
+      nra. }
+  destruct (fadd_bnd _ _ (k + 1) Fa Fb Ha0 Hb0 Hsum ltac:(lia)) as [B _]. exact B.
+Qed.
+
+Lemma fzero_bnd : forall p k, bnd (fzero (FL.arp p)) k.
+Proof.
+  intros p k. unfold fzero.
+  destruct (of_int_bnd p 0 ltac:(unfold U64; lia)) as [(Fz & _) E].
+  split; [exact Fz|]. rewrite E. cbn [Z.of_N]. rewrite round_0 by auto with typeclass_instances.
+  split; [lra | apply bpow_ge_0].
+Qed.
+
+Theorem fl_record_bnd : forall p (e : est F) new now, pow_ok p -> state_bnd e ->
+  (new < U64)%N -> (now < U64)%N -> (start_time e <= prev_time e)%N ->
+  state_bnd (est_record (FL.arp p) new now e) /\
+  (start_time (est_record (FL.arp p) new now e) <= prev_time (est_record (FL.arp p) new now e))%N.
+Proof.
+  intros p e new now Hp [Hs Hd] Hnew Hnow Hwf. unfold est_record.
+  change (T (FL.arp p)) with F in *.
+  destruct ((new <=? prev_steps e)%N || (now <=? prev_time e)%N) eqn:G.
+  - destruct (new <? prev_steps e)%N.
+    + unfold est_reset, state_bnd. cbn [sm dsm prev_time start_time].
+      split; [split; apply fzero_bnd | lia].
+    + split; [split; assumption | exact Hwf].
+  - apply orb_false_iff in G. destruct G as [G1 G2].
+    apply N.leb_gt in G1. apply N.leb_gt in G2.
+    cbv zeta. cbn [sm dsm prev_time start_time]. split; [|lia].
+    assert (Hds : (new - prev_steps e < U64)%N) by lia.
+    assert (Hdt : (since now (prev_time e) < U64)%N) by (unfold since; lia).
+    assert (Hdt1 : (1 <= since now (prev_time e))%N) by (unfold since; lia).
+    assert (Hst : (since now (start_time e) < U64)%N) by (unfold since; lia).
+    assert (Hst1 : (1 <= since now (start_time e))%N) by (unfold since; lia).
+    destruct (of_int_bnd p _ Hds) as [Bds _].
+    destruct (dur_secs_bnd p _ Hdt) as [(Fdt & _) Hdtlow]. specialize (Hdtlow Hdt1).
+    destruct (fdiv_bnd _ _ 64 (-30) Bds Fdt Hdtlow ltac:(lia)) as [Bnew _].
+    change (64 - -30)%Z with 94%Z in Bnew.
+    destruct (weight_bnd p _ Hp Hdt) as [Hw _].
+    destruct (total_weight_bnd p _ Hp Hst Hst1) as [(Ft & _) Htlow].
+    set (w := est_weight (FL.arp p) (dur_secs (FL.arp p) (since now (prev_time e)))) in *.
+    set (tw := sub (FL.arp p) (fone (FL.arp p))
+                 (est_weight (FL.arp p) (dur_secs (FL.arp p) (since now (start_time e))))) in *.
+    change (mul (FL.arp p)) with fmul. change (div (FL.arp p)) with fdiv.
+    change (add (FL.arp p)) with fadd. change (sub (FL.arp p)) with fsub.
+    change (fone (FL.arp p)) with fone64.
+    unfold KS, KD in *.
+    assert (Bs' := ewma_bnd 94 _ _ w ltac:(lia) Hs Bnew Hw).
+    change (94 + 1)%Z with 95%Z in Bs'.
+    destruct (fdiv_bnd _ _ 95 (-53) Bs' Ft Htlow ltac:(lia)) as [Bnorm _].
+    change (95 - -53)%Z with 148%Z in Bnorm.
+    assert (Bd' := ewma_bnd 148 _ _ w ltac:(lia) Hd Bnorm Hw).
+    split; [exact Bs' | exact Bd'].
+Qed.
+
+(** ** every history of record / restart calls with u64 arguments *)
+Lemma fl_run_bnd : forall p evs (e : est F), pow_ok p -> Forall ev_u64 evs ->
+  state_bnd e -> (start_time e <= prev_time e)%N ->
+  state_bnd (est_runA (FL.arp p) evs e) /\
+  (start_time (est_runA (FL.arp p) evs e) <= prev_time (est_runA (FL.arp p) evs e))%N.
+Proof.
+  intros p evs. induction evs as [|x r IH]; intros e Hp Hall Hb Hwf; [split; assumption|].
+  inversion Hall as [|x' r' [Ht Hpos] Hr]; subst. cbn [est_runA].
+  destruct x as [new now | now pos]; cbn [est_evA ev_time ev_pos] in *.
+  - destruct (fl_record_bnd p e new now Hp Hb Hpos Ht Hwf) as [Hb' Hwf']. now apply IH.
+  - apply IH; try assumption.
+    + unfold bar_reset_est, est_reset, state_bnd. cbn [sm dsm]. split; apply fzero_bnd.
+    + unfold bar_reset_est, est_reset. cbn [prev_time start_time]. lia.
+Qed.
+
+Theorem fl_history_finite_nonneg : forall p evs t0 now,
+  pow_ok p -> Forall ev_u64 evs -> (now < U64)%N ->
+  let e := est_runA (FL.arp p) evs (est_new (FL.arp p) t0) in
+  (start_time e < now)%N ->
+  is_finite (est_sps (FL.arp p) e now) = true /\ 0 <= B2R (est_sps (FL.arp p) e now).
+Proof.
+  intros p evs t0 now Hp Hall Hn e Hst.
+  destruct (fl_run_bnd p evs (est_new (FL.arp p) t0) Hp Hall) as [Hb _].
+  - unfold est_new, state_bnd. cbn [sm dsm]. split; apply fzero_bnd.
+  - unfold est_new. cbn [prev_time start_time]. lia.
+  - destruct (fl_sps_finite_nonneg p e now Hp Hb Hn Hst) as (Hf & H0 & _). split; assumption.
+Qed.
+
+(** ** every history of public ProgressBar calls with u64 arguments (binary64 instance) *)
+Definition BF (b : bar F) : Prop :=
+  state_bnd (b_est b) /\ (start_time (b_est b) <= prev_time (b_est b))%N /\
+  (b_pos b < U64)%N /\ (forall l, b_len b = Some l -> (l < U64)%N).
+
+Lemma BF_intro : forall (b : bar F),
+  state_bnd (b_est b) -> (start_time (b_est b) <= prev_time (b_est b))%N ->
+  (b_pos b < U64)%N -> (forall l, b_len b = Some l -> (l < U64)%N) -> BF b.
+Proof. intros b H1 H2 H3 H4. exact (conj H1 (conj H2 (conj H3 H4))). Qed.
+
+Lemma bar_record_BF : forall p now (b : bar F), pow_ok p -> (now < U64)%N -> BF b ->
+  BF (bar_record (FL.arp p) now b).
+Proof.
+  intros p now b Hp Hn (Hb & Hwf & Hpos & Hlen).
+  destruct (fl_record_bnd p (b_est b) (b_pos b) now Hp Hb Hpos Hn Hwf) as [Hb' Hwf'].
+  apply BF_intro; assumption.
+Qed.
+
+Lemma bar_move_BF : forall p q now (b : bar F), pow_ok p -> (now < U64)%N -> (q < U64)%N -> BF b ->
+  BF (bar_move (FL.arp p) q now b).
+Proof.
+  intros p q now b Hp Hn Hq (Hb & Hwf & Hpos & Hlen). unfold bar_move.
+  change (T (FL.arp p)) with F in *.
+  destruct (lim_allow now (b_lim b)) as [ok l'].
+  assert (H' : BF (mkBar q (b_len b) (b_done b) (b_started b) (b_est b) l'))
+    by (apply BF_intro; assumption).
+  destruct ok; [now apply bar_record_BF | exact H'].
+Qed.
+
+Lemma wrap_lt : forall x, (x mod U64 < U64)%N.
+Proof. intros x. apply N.mod_lt. discriminate. Qed.
+
+Lemma reset_est_bnd : forall p now pos (e : est F),
+  state_bnd (bar_reset_est (FL.arp p) now pos e) /\
+  (start_time (bar_reset_est (FL.arp p) now pos e) <= prev_time (bar_reset_est (FL.arp p) now pos e))%N.
+Proof.
+  intros p now pos e. unfold bar_reset_est, est_reset, state_bnd.
+  cbn [sm dsm prev_time start_time]. split; [split; apply fzero_bnd | lia].
+Qed.
+
+Lemma bar_step_BF : forall p o now (b : bar F), pow_ok p -> (now < U64)%N -> op_u64 o -> BF b ->
+  BF (bar_step (FL.arp p) o now b).
+Proof.
+  intros p o now b Hp Hn Ho HB.
+  assert (HB' := HB). destruct HB' as (Hb & Hwf & Hpos & Hlen).
+  destruct o; cbn [bar_step op_u64] in *; try exact HB.
+  - now apply bar_move_BF.
+  - apply bar_move_BF; auto. apply wrap_lt.
+  - apply bar_move_BF; auto. apply wrap_lt.
+  - apply bar_record_BF; auto. apply BF_intro; assumption.
+  - now apply bar_record_BF.
+  - apply bar_record_BF; auto. apply BF_intro; try assumption.
+    cbn [b_len]. intros l0 E. injection E as <-. exact Ho.
+  - apply bar_record_BF; auto. apply BF_intro; try assumption.
+    cbn [b_len]. intros l0 E. discriminate E.
+  - destruct (reset_est_bnd p now (b_pos b) (b_est b)) as [H1 H2]. apply BF_intro; assumption.
+  - destruct (reset_est_bnd p now (b_pos b) (b_est b)) as [H1 H2]. apply BF_intro; assumption.
+  - destruct (reset_est_bnd p now 0%N (b_est b)) as [H1 H2]. apply BF_intro; try assumption.
+    cbn [b_pos]. unfold U64. lia.
+  - apply BF_intro; try assumption. cbn [b_pos b_len].
+    change (T (FL.arp p)) with F. destruct (b_len b) as [l0|] eqn:E; [exact (Hlen l0 eq_refl) | exact Hpos].
+Qed.
+
+Lemma run_state_BF : forall p ops now (b : bar F), pow_ok p -> (now < U64)%N ->
+  Forall op_u64 ops -> BF b ->
+  BF (fst (run_state (FL.arp p) ops now b)) /\ (snd (run_state (FL.arp p) ops now b) < U64)%N.
+Proof.
+  intros p ops. induction ops as [|o r IH]; intros now b Hp Hn Hall HB; [split; assumption|].
+  inversion Hall as [|o' r' Ho Hr]; subst. cbn [run_state]. apply IH; auto.
+  - destruct o; cbn [clock_step]; try exact Hn. apply wrap_lt.
+  - now apply bar_step_BF.
+Qed.
+
+Theorem fl_bar_finite_nonneg : forall p len t0 ops,
+  pow_ok p -> (t0 < U64)%N -> (forall l, len = Some l -> (l < U64)%N) -> Forall op_u64 ops ->
+  let b := fst (run_state (FL.arp p) ops t0 (bar_new (FL.arp p) len t0)) in
+  let now := snd (run_state (FL.arp p) ops t0 (bar_new (FL.arp p) len t0)) in
+  (if b_done b then (b_started b < now)%N else (start_time (b_est b) < now)%N) ->
+  is_finite (bar_per_sec (FL.arp p) b now) = true /\ 0 <= B2R (bar_per_sec (FL.arp p) b now).
+Proof.
+  intros p len t0 ops Hp Ht0 Hlen Hall b now Hdom.
+  assert (HB0 : BF (bar_new (FL.arp p) len t0)).
+  { apply BF_intro; unfold bar_new, est_new; cbn [b_est b_pos b_len sm dsm prev_time start_time].
+    - split; apply fzero_bnd.
+    - lia.
+    - unfold U64. lia.
+    - exact Hlen. }
+  destruct (run_state_BF p ops t0 _ Hp Ht0 Hall HB0) as [(Hb & Hwf & Hpos & _) Hn].
+  fold b in Hb, Hwf, Hpos. fold now in Hn.
+  unfold bar_per_sec. destruct (b_done b).
+  - (* finished: pos / elapsed *)
+    destruct (of_int_bnd p (b_pos b) Hpos) as [Bp _].
+    assert (Hd : (since now (b_started b) < U64)%N) by (unfold since; lia).
+    assert (Hd1 : (1 <= since now (b_started b))%N) by (unfold since; lia).
+    destruct (dur_secs_bnd p _ Hd) as [(Fd & _) Hlow]. specialize (Hlow Hd1).
+    destruct (fdiv_bnd _ _ 64 (-30) Bp Fd Hlow ltac:(lia)) as [(Hf & H0 & _) _].
+    split; assumption.
+  - destruct (fl_sps_finite_nonneg p (b_est b) now Hp Hb Hn Hdom) as (Hf & H0 & _). split; assumption.
+Qed.
+
+(** the two zero-rate facts as one statement for props/C09.v *)
+Theorem fl_zero_when_weight_zero : forall p (b : bar FL.F) now,
+  is_finite (sm (b_est b)) = true -> is_finite (dsm (b_est b)) = true ->
+  est_weight (FL.arp p) (dur_secs (FL.arp p) (since now (prev_time (b_est b)))) = B754_zero false ->
+  est_weight (FL.arp p) (dur_secs (FL.arp p) (since now (start_time (b_est b)))) = B754_zero false ->
+  is_zero (FL.arp p) (est_sps (FL.arp p) (b_est b) now) = true /\
+  bar_eta (FL.arp p) b now = Some 0%N.
+Proof.
+  intros p b now Hs Hd H1 H2. split.
+  - exact (fl_rate_zero_when_weight_zero p (b_est b) now Hs Hd H1 H2).
+  - exact (fl_eta_zero_when_weight_zero p b now Hs Hd H1 H2).
 Qed.
